@@ -154,25 +154,31 @@ def build_and_audit(pid, tier="quick"):
                 ct["untranslatable"] = json.load(open(os.path.join(WORK, "code_facts.json"))).get("untranslatable", {})
             except OSError:
                 pass
-            rc, out = sh(["lake", "build"] + tie["modules"], cwd=LEAN, timeout=3000)
-            if rc == 0:
+            # modules are built one by one: a module that no longer builds takes only its own theorems with it
+            built = []
+            for m_ in tie["modules"]:
+                rc, out = sh(["lake", "build", m_], cwd=LEAN, timeout=3000)
+                if rc == 0:
+                    built.append(m_)
+                else:
+                    ct.setdefault("log", "")
+                    ct["log"] += out[-800:]
+            flat = ""
+            if built:
                 aud = os.path.join(WORK, f"AuditTie_{pid}.lean")
                 with open(aud, "w") as f:
-                    for m in tie["modules"]:
-                        f.write(f"import {m}\n")
+                    for m_ in built:
+                        f.write(f"import {m_}\n")
                     for t in tie["theorems"]:
                         f.write(f"#print axioms {t}\n")
                 rc, out = sh(["lake", "env", "lean", aud], cwd=LEAN)
                 flat = out.replace("\n", " ")
-                for t in tie["theorems"]:
-                    m = re.search(r"'" + re.escape(t) + r"' (depends on axioms: \[([^\]]*)\]|does not depend on any axioms)", flat)
-                    if m and all(a.strip() in ALLOWED_AXIOMS for a in (m.group(2) or "").split(",") if a.strip()):
-                        ct["proved"].append(t)
-                    else:
-                        ct["broken"].append(t)
-            else:
-                ct["broken"] = list(tie["theorems"])
-                ct["log"] = out[-1500:]
+            for t in tie["theorems"]:
+                m = re.search(r"'" + re.escape(t) + r"' (depends on axioms: \[([^\]]*)\]|does not depend on any axioms)", flat)
+                if m and all(a.strip() in ALLOWED_AXIOMS for a in (m.group(2) or "").split(",") if a.strip()):
+                    ct["proved"].append(t)
+                else:
+                    ct["broken"].append(t)
             res["code_tie"] = ct
         res["forbidden"] = forbidden_tokens()
         # thorough tier: independent re-check of the compiled property modules
